@@ -135,8 +135,9 @@ void harness(void)
 {
     unsigned which = VP_WHICH, i;
 #ifdef LONG
-    clean_str(S0, 4);
-    for (i = 4; i < LS0; i++) S0[i] = 'A';
+    /* (concrete: a symbolic byte could be the terminator as far as the symbolic execution can
+     * tell, which makes every later write position in msg[] symbolic - 15 GB) */
+    for (i = 0; i < LS0; i++) S0[i] = 'A';
     S0[LS0] = '\0';
 #else
     clean_str(S0, LS0);
@@ -152,12 +153,19 @@ void harness(void)
 #define VP_CAT2(a, b) a##b
 #define VP_CAT(a, b) VP_CAT2(a, b)
         /* formats with many numbers (the two statistics lines) choose among two values each */
+#ifdef LONG
+        for (i = 0; i < 4; i++) {
+            I[i] = iv[3];
+            U[i] = uv[1];
+        }
+#else
         for (i = 0; i < 4; i++) {
             I[i] = iv[vp_range(0, VP_CAT(FMT_NNUM_, VP_WHICH) > 4 ? 1 : 3)];
             U[i] = uv[vp_range(0, VP_CAT(FMT_NNUM_, VP_WHICH) > 4 ? 1 : 2)];
         }
+#endif
 #ifdef LONG
-        /* fixed-width header so that every write position in msg[] is concrete */
+        /* fixed-width header and numbers so that every write position in msg[] is concrete */
         rq.client = 7;
         rq.remote_port = 6667;
         (void)pv;
